@@ -228,3 +228,89 @@ Proof. unfold le32dec_m. dec_tac le32dec_tab. Qed.
 Theorem le64dec_ok : forall buf off, (off + 8 <= length buf)%nat -> bytes_ok buf ->
   le64dec_m buf off = Ok (le_val (loaded buf off 8)).
 Proof. unfold le64dec_m. dec_tac le64dec_tab. Qed.
+
+(* ---------------- the family statements ---------------- *)
+Theorem endian_store_defined k buf off x :
+  (off + ek_width k <= length buf)%nat ->
+  ek_enc k buf off x = Ok (stored buf off (ek_bytes k (ek_width k) x)).
+Proof.
+  destruct k; cbn [ek_width ek_enc ek_bytes]; intros H;
+    [apply be16enc_ok | apply be32enc_ok | apply be64enc_ok
+     | apply le16enc_ok | apply le32enc_ok | apply le64enc_ok]; exact H.
+Qed.
+
+Theorem endian_load_defined k buf off :
+  (off + ek_width k <= length buf)%nat -> bytes_ok buf ->
+  ek_dec k buf off = Ok (ek_val k (loaded buf off (ek_width k))).
+Proof.
+  destruct k; cbn [ek_width ek_dec ek_val]; intros H Hb;
+    [apply be16dec_ok | apply be32dec_ok | apply be64dec_ok
+     | apply le16dec_ok | apply le32dec_ok | apply le64dec_ok]; assumption.
+Qed.
+
+Lemma ek_bytes_length k n x : length (ek_bytes k n x) = n.
+Proof. destruct k; cbn [ek_bytes]; first [apply be_bytes_length | apply le_bytes_length]. Qed.
+Lemma ek_bytes_ok k n x : bytes_ok (ek_bytes k n x).
+Proof. destruct k; cbn [ek_bytes]; first [apply be_bytes_ok | apply le_bytes_ok]. Qed.
+
+Theorem ek_val_bytes k n x : x < 256 ^ N.of_nat n -> ek_val k (ek_bytes k n x) = x.
+Proof. destruct k; cbn [ek_val ek_bytes]; first [apply be_val_be_bytes | apply le_val_le_bytes]. Qed.
+Theorem ek_bytes_val k bs : bytes_ok bs -> ek_bytes k (length bs) (ek_val k bs) = bs.
+Proof. destruct k; cbn [ek_val ek_bytes]; first [apply be_bytes_be_val | apply le_bytes_le_val]. Qed.
+Lemma ek_val_bound k bs : bytes_ok bs -> ek_val k bs < 256 ^ N.of_nat (length bs).
+Proof. destruct k; cbn [ek_val]; first [apply be_val_bound | apply le_val_bound]. Qed.
+
+Lemma stored_split buf off (bytes : list N) :
+  (off + length bytes <= length buf)%nat ->
+  exists pre mid post, buf = pre ++ mid ++ post /\ length pre = off /\ length mid = length bytes /\
+                       stored buf off bytes = pre ++ bytes ++ post.
+Proof.
+  intros H. destruct (split3 buf off _ H) as (pre & mid & post & -> & Lp & Lm).
+  exists pre, mid, post. repeat split; try assumption. subst off. apply stored_parts, Lm.
+Qed.
+
+Lemma bytes_ok_app (a b : list N) : bytes_ok (a ++ b) <-> bytes_ok a /\ bytes_ok b.
+Proof. unfold bytes_ok. apply Forall_app. Qed.
+
+(* store then load gives the value back (and the object stays a byte object of the same size) *)
+Theorem endian_dec_enc k buf off x :
+  (off + ek_width k <= length buf)%nat -> bytes_ok buf -> x < 256 ^ N.of_nat (ek_width k) ->
+  exists buf', ek_enc k buf off x = Ok buf' /\ length buf' = length buf /\ ek_dec k buf' off = Ok x.
+Proof.
+  intros H Hb Hx. rewrite endian_store_defined by exact H.
+  set (bytes := ek_bytes k (ek_width k) x).
+  assert (length bytes = ek_width k) as Lb by apply ek_bytes_length.
+  destruct (stored_split buf off bytes) as (pre & mid & post & E & Lp & Lm & Es); [lia|].
+  exists (stored buf off bytes). split; [reflexivity|]. rewrite Es. subst buf.
+  split; [rewrite !app_length; lia|].
+  rewrite endian_load_defined.
+  - subst off. rewrite <- Lb. rewrite loaded_parts. unfold bytes. rewrite ek_val_bytes by exact Hx. reflexivity.
+  - rewrite !app_length. lia.
+  - apply bytes_ok_app in Hb. destruct Hb as [H1 H2]. apply bytes_ok_app in H2. destruct H2 as [_ H3].
+    apply bytes_ok_app. split; [exact H1|]. apply bytes_ok_app. split; [apply ek_bytes_ok | exact H3].
+Qed.
+
+(* load then store leaves the object as it was: enc (dec bs) = bs *)
+Theorem endian_enc_dec k buf off :
+  (off + ek_width k <= length buf)%nat -> bytes_ok buf ->
+  exists v, ek_dec k buf off = Ok v /\ v < 256 ^ N.of_nat (ek_width k) /\ ek_enc k buf off v = Ok buf.
+Proof.
+  intros H Hb. rewrite endian_load_defined by assumption.
+  destruct (split3 buf off _ H) as (pre & mid & post & -> & Lp & Lm). subst off.
+  rewrite <- Lm. rewrite loaded_parts.
+  assert (bytes_ok mid) as Hm by (apply bytes_ok_mid in Hb; exact Hb).
+  exists (ek_val k mid). split; [reflexivity|]. split; [apply ek_val_bound, Hm|].
+  rewrite endian_store_defined by exact H. rewrite <- Lm.
+  rewrite ek_bytes_val by exact Hm. rewrite stored_parts by reflexivity. reflexivity.
+Qed.
+
+(* non-vacuity *)
+Example be32_example :
+  be32enc_m [9; 9; 9; 9; 9; 9] 1 16909060 = Ok [9; 1; 2; 3; 4; 9] /\
+  be32dec_m [9; 1; 2; 3; 4; 9] 1 = Ok 16909060.
+Proof. split; vm_compute; reflexivity. Qed.
+Example le64_example :
+  le64enc_m (repeat 0 9) 1 72623859790382856 = Ok [0; 8; 7; 6; 5; 4; 3; 2; 1].
+Proof. vm_compute. reflexivity. Qed.
+Example be16_fault_example : be16enc_m [0; 0] 1 258 = Fault.
+Proof. vm_compute. reflexivity. Qed.
